@@ -104,7 +104,7 @@ class G:
 
 # --------------------------------------------------------------------------- op templates
 
-CONST_KINDS = ["normal", "normal", "normal", "pos", "neg", "small", "const", "big", "tiny", "rowtiny"]
+CONST_KINDS = ["normal", "normal", "normal", "pos", "neg", "small", "const", "big", "tiny", "rowtiny", "denorm"]
 HUGE_KINDS = CONST_KINDS + ["huge", "huge", "huge"]   # magnitudes around the float16 overflow threshold (65504 / 65520)
 BENIGN_KINDS = ["normal", "normal", "normal", "pos", "neg", "small", "const", "big"]
 
@@ -133,6 +133,11 @@ def _const(rng, shape, kind=None, kinds=None):
             if shape[0] > 1:
                 a[-1] = 0.0
             a = a.reshape(-1)
+    elif kind == "denorm":
+        # ordinary weights with a few float32 SUBNORMAL entries (pruned / underflowed weights): products with them underflow
+        a = r.randn(n)
+        for k in r.choice(n, size=max(1, n // 4), replace=False):
+            a[k] = r.choice([1e-41, -1e-41, 1e-45, 3e-39])
     elif kind == "huge":
         a = r.choice([65504.0, 65519.0, 65520.0, 65536.0, 7e4, 1e5, 3e4, 1.0], size=n) * r.choice([-1.0, 1.0], size=n)
     else:
